@@ -627,8 +627,40 @@ def check_C16(run):
     return run.finish('fault_enumeration', cov)
 
 
+
+def check_C17(run):
+    """On-disk format compatibility: the committed corpus (written once by the pinned release from
+    TLC-generated behaviours, see corpusgen/) is opened by the current code."""
+    run.build()
+    corpus = os.path.join(VERIF, 'corpus')
+    out = os.path.join(run.work, 'corpus.out')
+    rc = subprocess.run([os.path.join(BIN, 'corpus'), corpus], stdout=open(out, 'w'), stderr=open(out + '.err', 'w')).returncode
+    res = None
+    for line in open(out, errors='replace'):
+        if line.startswith('MISMATCH '):
+            rec = json.loads(line[9:])
+            m = rec['mismatches'][0]
+            run.violation('C17', rec, 'corpus case %s: %s' % (json.dumps(rec['case']), json.dumps(m)[:400]))
+        elif line.startswith('RESULT '):
+            res = json.loads(line[7:])
+    if rc != 0 or res is None:
+        raise ToolError('corpus check failed to run (rc=%s)' % rc)
+    run.samples.append(res['sample'])
+    run.log('%d corpus directories, %d open / damage combinations, %d failed' % (res['directories'], res['combinations'], res['failed']))
+    cov = dict(evaluations=res['combinations'], distinct_nontrivial=res['directories'],
+               rule='one directory = one TLC-generated behaviour (writes with and without metadata, deletion markers, blob switches, '
+                    'restarts) executed by the PINNED release for key sizes 4 / 8 / 32 with and without bloom filter, answers '
+                    'cross-checked against the specification when recorded; each is opened (eager and lazy) with every '
+                    'present / absent combination of its index files, with another key size, and with patched blob / index '
+                    'format versions',
+               exhaustive=True)
+    run.assumptions += ['the TLA+ part is the scenario generator and the expected answers; byte layout, hash seeds and bit order are pinned by the files',
+                        'another key size must never be served: an init error or a storage serving no record (blobs set aside) both count as rejected']
+    return run.finish('exploration', cov)
+
+
 CHECKS = {'C01': check_C01, 'C02': check_C02, 'C03': check_C03, 'C04': check_C04, 'C07': check_C07, 'C09': check_C09, 'C10': check_C10, 'C11': check_C11,
-          'C12': check_C12, 'C13': check_C13, 'C14': check_C14, 'C15': check_C15, 'C16': check_C16}
+          'C12': check_C12, 'C13': check_C13, 'C14': check_C14, 'C15': check_C15, 'C16': check_C16, 'C17': check_C17}
 
 
 
